@@ -177,6 +177,8 @@ def c04(res, v):
                     viol(res, v, 'a protocol error in a POST body did not end the session', 'protocol-error-ends', step=step)
         elif op[0] == 'frame':
             c, f = op[1], op[2]
+            if f == ('emptybin',):
+                f = ('pk', ('msg', 0, 'none'))          # a binary MESSAGE with an empty payload
             s = _sess(r.conn_sess.get(c))
             if not isinstance(s, int):
                 continue
@@ -315,6 +317,14 @@ def c06(res, v):
                 viol(res, v, 'a polling session switched to WebSocket without the PING probe / PONG probe / UPGRADE handshake', 'only-via-probe', session=s, step=step)
             if fl[2] and not handshake_in_progress(r, s, step):
                 viol(res, v, 'a failed or abandoned upgrade left the session unable to use polling (still marked as upgrading)', 'failure-harmless', session=s, step=step)
+    # a completed upgrade refuses further upgrade attempts without disturbing the established WebSocket
+    for step, op in enumerate(r.log):
+        if op[0] == 'upgrade' and isinstance(op[1], int) and op[1] < len(r.sids):
+            pre, po = r.pre[step].get(op[1]), r.post[step].get(op[1])
+            if pre and not pre[0] and pre[3]:
+                evs = [o for o in r.outs[step] if o[0] == 'ev' and o[1] == op[1]]
+                if po != pre or evs:
+                    viol(res, v, 'an upgrade attempt on an already upgraded session disturbed the established WebSocket session', 'no-second-upgrade', session=op[1], step=step)
     if not r.cfg.websocket:
         for os in r.outs:
             for o in os:
@@ -526,3 +536,7 @@ def c16_table(res, v):
     for s, fl in r.post[-1].items():
         if fl is not None and fl[0]:
             viol(res, v, 'a closed session is still in the server table after the monitor had time to sweep', 'reaped', session=s)
+        elif fl is not None:
+            # no client answered a PING during the closing advance of ping_interval + 7 x ping_timeout: nobody is alive
+            viol(res, v, 'a session whose client went away is still in the server table after the heartbeat bound', 'vanished-reaped', session=s,
+                 flags=dict(closing=fl[1], upgrading=fl[2], upgraded=fl[3]))
